@@ -27,7 +27,7 @@
 (* not carry the topology key at all is in no domain: no guard applies, the  *)
 (* admission is reported as the non-verdict note Note_C02_TargetLacksKey.    *)
 (***************************************************************************)
-EXTENDS TopologyGuards, Json, IOUtils
+EXTENDS TopologyGuards, TopologyKnown, Json, IOUtils
 
 CONSTANT Mode      \* "hook" | "end"
 
@@ -78,13 +78,13 @@ AdmissionChecks(ev) ==
     IN Flat([i \in DOMAIN p.aff |-> Chk(TDom(cfg, x, p.aff[i].key) # {}, "Note_C02_TargetLacksKey", "affinity:" \o p.aff[i].key)])
        \o Flat([i \in DOMAIN p.spread |-> IF p.spread[i].when # "DoNotSchedule" THEN <<>>
                                            ELSE Chk(TDom(cfg, x, p.spread[i].key) # {}, "Note_C02_TargetLacksKey", "spread:" \o p.spread[i].key)])
-       \o Flat([i \in DOMAIN p.aff |-> ChkI(AffTermOK(Strict, W, p, x, p.aff[i]), "G_C02_Affinity", SigAff(Strict, W, p, x, p.aff[i], ev.eff),
+       \o Flat([i \in DOMAIN p.aff |-> ChkI(AffTermOK(Strict, W, p, x, p.aff[i]), "G_C02_Affinity", SigAff(Strict, W, p, x, p.aff[i], ev.eff, KnownCauses),
                                       ToString([pod |-> ev.pod, term |-> i, parts |-> AffParts(Strict, W, p, x, p.aff[i])]))])
        \o Flat([i \in DOMAIN p.spread |->
                IF p.spread[i].when # "DoNotSchedule" THEN <<>>
                ELSE LET s == p.spread[i]
                         a == SpreadParts(Strict, W, p, x, s, U(s))
-                    IN ChkI(a.ok, "G_C02_Spread", SigSpread(Strict, W, p, x, s, U(s), SpreadCause(Strict, W, p, x, s, U(s), ev.eff, GroupsOf(ev, s))), ToString([pod |-> ev.pod, cnt |-> a.cnt, self |-> a.self, min |-> a.min, hi |-> a.hi, skew |-> s.maxSkew]))
+                    IN ChkI(a.ok, "G_C02_Spread", SigSpread(Strict, W, p, x, s, U(s), SpreadCause(Strict, W, p, x, s, U(s), ev.eff, GroupsOf(ev, s), KnownCauses)), ToString([pod |-> ev.pod, cnt |-> a.cnt, self |-> a.self, min |-> a.min, hi |-> a.hi, skew |-> s.maxSkew]))
                        \o (IF ~a.ok \/ Cardinality(a.dx) # 1 THEN <<>>
                            ELSE LET d == CHOOSE e \in a.dx : TRUE
                                     cc == CodeCounts(ev, s, d)
@@ -123,7 +123,7 @@ AntiChecks(W) ==
 EndChecks(W) ==
     LET Uof(q, s) == {} IN
     Flat(SetToSeq({<<V("Inv_C02_EndState", "end:" \o SigAff(Strict, Without(W, PodByKey(cfg, b[1])), PodByKey(cfg, b[1]), Loc(W, PodByKey(cfg, b[1])),
-                                                              PodByKey(cfg, b[1]).aff[b[2]], <<>>))>> : b \in EndAffBad(Strict, W)}))
+                                                              PodByKey(cfg, b[1]).aff[b[2]], <<>>, KnownCauses))>> : b \in EndAffBad(Strict, W)}))
     \o Flat(SetToSeq({LET p == PodByKey(cfg, b[1]) s == p.spread[b[2]] IN
                       <<V("Inv_C02_EndState", "end:" \o SigSpread(Strict, Without(W, p), p, Loc(W, p), s, Uof(p, s), ""))>> : b \in EndSpreadBad(Strict, W, Uof)}))
 TResults ==
